@@ -237,8 +237,8 @@ fn gen_join(r: &mut Rng) -> Case {
         Some(c) => format!("(and {on} {c})"),
         None => on.clone(),
     };
-    let nl_supported = jt != "right_outer" && jt != "full_outer";
-    if nl_supported || r.chance(1, 6) {
+    // (right / full outer nested-loop joins exist since /repo 7d07810)
+    {
         plans.push(("nl".to_string(), format!("(join {jt} {nl_on} {l} {rr})")));
     }
     let cond = resid.clone().unwrap_or("true".into());
